@@ -125,11 +125,18 @@ class RawResult:
 
 
 # ---------------------------------------------------------------- numerics
-def seg_amp(x: np.ndarray, D, L: int, w: np.ndarray) -> float:
-    """max over the segments of sum |x w| (the magnitude scale of the rounding budget)"""
+def seg_amp(x: np.ndarray, D, L: int, w: np.ndarray, order: int = -1) -> float:
+    """magnitude scale of the rounding budget: max over the segments of Σ|x·w|; with detrending (order >= 0) the error of the fitted trend is
+    proportional to the UNWEIGHTED size of the segment and enters every sample, hence + mean|x|·Σ|w| (sound also where the window suppresses
+    the samples on which a trend is largest)"""
     D = np.asarray(D, dtype=np.int64)
     idx = D[:, None] + np.arange(L, dtype=np.int64)[None, :]
-    return float((np.abs(x[idx]) * np.abs(w)[None, :]).sum(axis=1).max()) + 1e-300
+    ax = np.abs(x[idx])
+    aw = np.abs(w)
+    v = (ax * aw[None, :]).sum(axis=1)
+    if order >= 0:
+        v = v + ax.mean(axis=1) * float(aw.sum())
+    return float(v.max()) + 1e-300
 
 
 def eff_window(w: np.ndarray, omega: float, order: int) -> np.ndarray:
